@@ -36,7 +36,7 @@ import (
 
 var recStream = ev.New("C20", "request-streams-during-shutdown-saves",
 	"real time, disk-backed directory, store of N users (default 20 000): one acknowledged change (saver cooling down); 2-4 senders stream add/update/delete "+
-		"back to back, in 2 of 3 trials with a goroutine POSTing reload-users on the untouched file; cancel 1-25 ms later with the streams running: the shutdown save "+
+		"back to back, in 2 of 3 trials with a goroutine POSTing reload-users on the untouched file; cancel 1-25 ms later (and once every sender has an acknowledged request) with the streams running: the shutdown save "+
 		"starts at once (and a further one right behind it if a job was queued meanwhile); the streams run on until 5-150 ms after the first replacement of the store file; Stop. Bounds: every call and Stop return within 45 s "+
 		"(SIG save-or-api-call-did-not-return). After Stop the file is one complete document; for each sender its names hold the sender's model after a prefix of its requests "+
 		"not shorter than what was acknowledged before cancel; all other users unchanged; a fresh server starts on it and accepts sampled keys. One evaluation = one trial. "+
@@ -129,6 +129,17 @@ func streamTrial(kl int, stores credx.Mode, n int, dir string, nsend int, preDel
 		})
 	}
 	time.Sleep(preDelay)
+	// on a busy machine the first requests may take longer than that: every sender has at least one
+	// request acknowledged before shutdown begins (bounded wait; a stuck request shows below)
+	for wait := time.Now().Add(10 * time.Second); time.Now().Before(wait); time.Sleep(200 * time.Microsecond) {
+		all := true
+		for _, s := range senders {
+			all = all && s.acked.Load() > 0
+		}
+		if all {
+			break
+		}
+	}
 	lower := make([]int, nsend)
 	for g, s := range senders {
 		lower[g] = int(s.acked.Load())
